@@ -129,8 +129,12 @@ def tolerances(x, P, z, H, R, K, S, nu, c=8.0):
     ev = np.linalg.eigvalsh(0.5 * (S + S.T))
     lmin, lmax = max(ev[0], 1e-300), ev[-1]
     condS = lmax / lmin
-    relK = c * EPS * (n + m) * condS
     nK, nH, nP, nR = norm2(K), norm2(H), norm2(P), norm2(R)
+    # S = H P H' + R is formed from terms of size |H|^2 |P|: when H is nearly orthogonal to the dominant eigenvectors of P
+    # the products cancel and S carries an absolute error eps |H|^2 |P| >> eps |S| (found by the thorough tier: n=2, m=1,
+    # cond P = 1e4, error 110 eps). The effective conditioning of everything solved with S is therefore
+    kappa = max(condS, (nH ** 2 * nP + nR) / lmin)
+    relK = c * EPS * (n + m) * kappa
     nU = 1.0 + nK * nH
     e_norm = norm2(z - H @ x)
     de = EPS * (n + 2) * (norm2(z) + nH * norm2(x))
